@@ -1233,7 +1233,11 @@ class Glyph(object):
                     boundsDone.add(glyphName)
             # empty components shouldn't update the bounds of the parent glyph
             if g.yMin == g.yMax and g.xMin == g.xMax:
-                continue
+                if g.numberOfContours == 0:
+                    continue
+                # all points of the component coincide (e.g. a one-point glyph): that is
+                # not an empty component; let the general path measure the real points
+                return False
 
             x, y = compo.x, compo.y
             bounds = updateBounds(bounds, (g.xMin + x, g.yMin + y))
